@@ -249,8 +249,11 @@ pub fn observe(provs: &Provs, sql: &str, with_plans: bool) -> Value {
     let none = std::collections::HashMap::new();
     let mut cfgs = serde_json::Map::new();
     let mut plans = serde_json::Map::new();
+    let mut fired = serde_json::Map::new();
+    let bound_dbg = format!("{:?}", bound);
     let mut add = |name: &str, p: Result<LogicalPlan, QueryError>| {
-        match &p { Ok(x) => { cfgs.insert(name.into(), execute(provs, x, false)); if with_plans { plans.insert(name.into(), planexport::plan_json(x)); } }
+        match &p { Ok(x) => { cfgs.insert(name.into(), execute(provs, x, false)); fired.insert(name.into(), json!(format!("{:?}", x) != bound_dbg));
+                              if with_plans { plans.insert(name.into(), planexport::plan_json(x)); } }
                    Err(e) => { cfgs.insert(name.into(), err_json(e)); if with_plans { plans.insert(name.into(), err_json(e)); } } }
     };
     add("noopt", Ok(bound.clone()));
@@ -258,7 +261,7 @@ pub fn observe(provs: &Provs, sql: &str, with_plans: bool) -> Value {
     add("prod-stats", caught(&|| optimize_production(&none, bound.clone())));
     for rule in STATS_RULES { add(&format!("only:{}", rule), caught(&|| optimize(vec![rule_by_name(rule).unwrap()], &stats, bound.clone()))); }
     cfgs.insert("sql".into(), execute_sql(provs, sql, false));
-    json!({"stats": stats_json(&stats), "cfgs": Value::Object(cfgs), "plans": Value::Object(plans)})
+    json!({"stats": stats_json(&stats), "cfgs": Value::Object(cfgs), "plans": Value::Object(plans), "fired": Value::Object(fired)})
 }
 
 pub fn run_case(c: &Value) -> Value {
